@@ -232,6 +232,8 @@ func C17(e *core.Env) int {
 			}
 		}
 		_ = hres
+		// the in-process reference run must leave no trace in the tree the CLI run is judged on
+		removeEmptyDirs(dir)
 		// prior state
 		switch sc.prior {
 		case "current":
@@ -513,4 +515,21 @@ func c17Inject(e *core.Env, rep *core.Report, bin, helper, root string) {
 	}
 	rep.Extra["io_faults_injected"] = len(jobs)
 	rep.Extra["io_faults_fired"] = nf
+}
+
+// removeEmptyDirs removes directories without entries below root (deepest first).
+func removeEmptyDirs(root string) {
+	var dirs []string
+	filepath.Walk(root, func(p string, info os.FileInfo, err error) error {
+		if err == nil && info.IsDir() && p != root {
+			dirs = append(dirs, p)
+		}
+		return nil
+	})
+	sort.Sort(sort.Reverse(sort.StringSlice(dirs)))
+	for _, d := range dirs {
+		if ents, err := os.ReadDir(d); err == nil && len(ents) == 0 {
+			os.Remove(d)
+		}
+	}
 }
